@@ -165,9 +165,16 @@ pub fn par_for<F>(total: u64, deadline: Option<Instant>, f: F) -> u64
 where
     F: Fn(u64) -> After + Sync,
 {
+    par_for_n(workers(), total, deadline, f)
+}
+
+/// `par_for` with an explicit number of slots (real-time scenarios mostly sleep)
+pub fn par_for_n<F>(n: usize, total: u64, deadline: Option<Instant>, f: F) -> u64
+where
+    F: Fn(u64) -> After + Sync,
+{
     let next = AtomicU64::new(0);
     let done = AtomicU64::new(0);
-    let n = workers();
     std::thread::scope(|s| {
         for _ in 0..n {
             s.spawn(|| {
